@@ -105,10 +105,26 @@ func isCounter(p *Prog, f *ssa.Function, x ssa.Value) bool {
 // refusingCompare: cond is `counter > K` / `counter >= K` in f and the edge on which it holds returns a non-nil error.
 func refusingCompare(p *Prog, f *ssa.Function, cond ssa.Value) bool {
 	bo, ok := cond.(*ssa.BinOp)
-	if !ok || (bo.Op != token.GTR && bo.Op != token.GEQ) {
+	if !ok {
 		return false
 	}
-	if _, isK := constInt(bo.Y); !isK || !isCounter(p, f, bo.X) {
+	x, y, op := bo.X, bo.Y, bo.Op
+	if _, isK := constInt(x); isK {
+		// K < counter
+		x, y = y, x
+		switch op {
+		case token.LSS:
+			op = token.GTR
+		case token.LEQ:
+			op = token.GEQ
+		default:
+			return false
+		}
+	}
+	if op != token.GTR && op != token.GEQ {
+		return false
+	}
+	if _, isK := constInt(y); !isK || !isCounter(p, f, x) {
 		return false
 	}
 	for _, b := range f.Blocks {
@@ -220,6 +236,12 @@ func ruleC01Recursion(p *Prog, a *Anchors, r *Report) {
 				}
 			}
 			return false
+		}
+		// a plain function that works on a parser or a lexer (an extracted helper)
+		for i := 0; i < top.Signature.Params().Len(); i++ {
+			if n := structOf(top.Signature.Params().At(i).Type()); n != nil && (n.Obj().Name() == "Parser" || n.Obj().Name() == "lexer") {
+				return true
+			}
 		}
 		return strings.HasPrefix(top.Name(), "newTemplate") || top.Name() == "lex"
 	}
